@@ -11,11 +11,14 @@ package chainkit
 //
 //	in main():   if chainkit.Serve(func(req []byte) interface{} { ... }) { return }
 //	parent:      p := chainkit.StartPool(n); defer p.Close()
-//	             outs, err := p.Map(reqs, deadline)   // outs[i] answers reqs[i]; nil = not run (deadline)
+//	             outs, deaths, err := p.Map(reqs, deadline) // outs[i] answers reqs[i]; nil = not run
 //
 // Requests are handed out one at a time to whichever worker is idle (dynamic balancing); results
-// come back in request order, so nothing downstream depends on scheduling. A worker that dies
-// makes Map return an error naming the request it was executing.
+// come back in request order, so nothing downstream depends on scheduling. A worker that dies is
+// replaced and its request retried once on the fresh worker; a second death on the same request
+// is reported as a Death (crash of the code under test vs. resource kill is told apart from the
+// worker's output), never as a silent loss. Workers whose resident set grows past RecycleRSSMiB
+// are replaced between requests.
 
 import (
 	"bufio"
@@ -24,7 +27,10 @@ import (
 	"fmt"
 	"os"
 	"os/exec"
+	"sort"
+	"strings"
 	"sync"
+	"syscall"
 	"time"
 )
 
@@ -66,18 +72,95 @@ func Serve(handler func(req []byte) interface{}) bool {
 	return true
 }
 
+// tailBuffer keeps the last tailMax bytes written to it (worker stdout+stderr).
+type tailBuffer struct {
+	mu sync.Mutex
+	b  []byte
+}
+
+const tailMax = 32 << 10
+
+func (t *tailBuffer) Write(p []byte) (int, error) {
+	t.mu.Lock()
+	t.b = append(t.b, p...)
+	if len(t.b) > 2*tailMax {
+		t.b = append([]byte{}, t.b[len(t.b)-tailMax:]...)
+	}
+	t.mu.Unlock()
+	return len(p), nil
+}
+
+func (t *tailBuffer) String() string {
+	t.mu.Lock()
+	defer t.mu.Unlock()
+	b := t.b
+	if len(b) > tailMax {
+		b = b[len(b)-tailMax:]
+	}
+	return string(b)
+}
+
 type poolWorker struct {
 	cmd    *exec.Cmd
 	req    *os.File
 	resp   *bufio.Reader
 	respF  *os.File
-	stderr bytes.Buffer
+	stderr *tailBuffer
 	dead   bool
+	served int
 }
+
+const announceMark = "##EXEC "
+
+// Announce is called by a worker before it executes a history: if the process then dies, the
+// parent finds the history in the tail of the worker's output (Death.Announced).
+func Announce(s string) {
+	if os.Getenv(poolEnv) == "" {
+		return
+	}
+	fmt.Fprintln(os.Stderr, announceMark+s)
+	// self-test knobs of the death handling (never set in a normal run)
+	if k := os.Getenv("CHAINKIT_TEST_KILL"); k != "" && s == k {
+		syscall.Kill(os.Getpid(), syscall.SIGKILL)
+		time.Sleep(time.Second)
+	}
+	if k := os.Getenv("CHAINKIT_TEST_PANIC"); k != "" && s == k {
+		go func() { panic("chainkit self-test: panic in a goroutine of the worker") }()
+		time.Sleep(time.Second)
+	}
+}
+
+// Death describes a request whose worker died twice in a row (once on the worker that happened
+// to hold it, once on a fresh worker).
+type Death struct {
+	Index     int
+	Request   string
+	Announced string // last history announced by the second worker
+	Tail      string // tail of the second worker's output, announcements removed
+	ExitErr   string
+}
+
+// Crashed reports whether the worker's own output shows a Go panic / fatal error of the code
+// under test (as opposed to the process being killed from outside, or running out of memory).
+func (d Death) Crashed() bool {
+	t := d.Tail
+	if strings.Contains(t, "out of memory") || strings.Contains(t, "cannot allocate memory") {
+		return false
+	}
+	return strings.Contains(t, "panic:") || strings.Contains(t, "fatal error:") || strings.Contains(t, "[signal SIG")
+}
+
+// RecycleRSSMiB: a worker whose resident set exceeds this after a request is replaced by a
+// fresh process (0 = never).
+var RecycleRSSMiB = 1536
 
 // Pool is a set of live worker processes of the current binary.
 type Pool struct {
-	ws []*poolWorker
+	ws  []*poolWorker
+	env []string
+	// Restarts counts workers replaced after a death or for recycling.
+	Restarts int
+	mu       sync.Mutex
 }
 
 // StartPool launches n workers (same binary, same arguments). env is appended to the
@@ -86,39 +169,86 @@ type Pool struct {
 // (freed heap pages stay resident, so the 4 MiB goleveldb memtables every fresh node allocates
 // are not page-faulted in again each time).
 func StartPool(n int, env ...string) (*Pool, error) {
+	p := &Pool{env: env}
+	for i := 0; i < n; i++ {
+		w, err := p.spawn()
+		if err != nil {
+			p.Close()
+			return nil, err
+		}
+		p.ws = append(p.ws, w)
+	}
+	return p, nil
+}
+
+func (p *Pool) spawn() (*poolWorker, error) {
 	self, err := os.Executable()
 	if err != nil {
 		return nil, err
 	}
-	p := &Pool{}
-	for i := 0; i < n; i++ {
-		reqR, reqW, err := os.Pipe()
-		if err != nil {
-			p.Close()
-			return nil, err
-		}
-		respR, respW, err := os.Pipe()
-		if err != nil {
-			p.Close()
-			return nil, err
-		}
-		w := &poolWorker{req: reqW, respF: respR, resp: bufio.NewReaderSize(respR, 1<<20)}
-		cmd := exec.Command(self, os.Args[1:]...)
-		cmd.Env = append(os.Environ(), poolEnv+"=1", "GOMAXPROCS=1", "GODEBUG=madvdontneed=0")
-		cmd.Env = append(cmd.Env, env...)
-		cmd.ExtraFiles = []*os.File{reqR, respW}
-		cmd.Stdout = &w.stderr
-		cmd.Stderr = &w.stderr
-		if err := cmd.Start(); err != nil {
-			p.Close()
-			return nil, err
-		}
-		reqR.Close()
-		respW.Close()
-		w.cmd = cmd
-		p.ws = append(p.ws, w)
+	reqR, reqW, err := os.Pipe()
+	if err != nil {
+		return nil, err
 	}
-	return p, nil
+	respR, respW, err := os.Pipe()
+	if err != nil {
+		return nil, err
+	}
+	w := &poolWorker{req: reqW, respF: respR, resp: bufio.NewReaderSize(respR, 1<<20), stderr: &tailBuffer{}}
+	cmd := exec.Command(self, os.Args[1:]...)
+	cmd.Env = append(os.Environ(), poolEnv+"=1", "GOMAXPROCS=1", "GODEBUG=madvdontneed=0")
+	cmd.Env = append(cmd.Env, p.env...)
+	cmd.ExtraFiles = []*os.File{reqR, respW}
+	cmd.Stdout = w.stderr
+	cmd.Stderr = w.stderr
+	if err := cmd.Start(); err != nil {
+		return nil, err
+	}
+	reqR.Close()
+	respW.Close()
+	w.cmd = cmd
+	return w, nil
+}
+
+// retire ends a worker (politely first) and releases its pipes.
+func retire(w *poolWorker, kill bool) string {
+	if w.req != nil {
+		w.req.Close()
+	}
+	exit := ""
+	if w.cmd != nil {
+		if kill && w.cmd.Process != nil {
+			w.cmd.Process.Kill()
+		}
+		done := make(chan error, 1)
+		go func() { done <- w.cmd.Wait() }()
+		select {
+		case err := <-done:
+			if err != nil {
+				exit = err.Error()
+			}
+		case <-time.After(10 * time.Second):
+			w.cmd.Process.Kill()
+			if err := <-done; err != nil {
+				exit = err.Error()
+			}
+		}
+	}
+	if w.respF != nil {
+		w.respF.Close()
+	}
+	w.dead = true
+	return exit
+}
+
+func rssMiB(pid int) int {
+	b, err := os.ReadFile(fmt.Sprintf("/proc/%d/statm", pid))
+	if err != nil {
+		return 0
+	}
+	var size, res int
+	fmt.Sscanf(string(b), "%d %d", &size, &res)
+	return res * os.Getpagesize() >> 20
 }
 
 // Budget returns def seconds unless VERIF_BUDGET_S overrides it (internal time cap of a check:
@@ -136,20 +266,49 @@ func Budget(def int) time.Duration {
 // Size is the number of workers.
 func (p *Pool) Size() int { return len(p.ws) }
 
+// exchange sends one request to w and reads the answer.
+func exchange(w *poolWorker, b []byte) ([]byte, error) {
+	if _, err := w.req.Write(append(b, '\n')); err != nil {
+		return nil, err
+	}
+	w.respF.SetReadDeadline(time.Now().Add(RequestTimeout))
+	line, err := w.resp.ReadBytes('\n')
+	if err != nil {
+		return nil, err
+	}
+	return bytes.TrimSpace(line), nil
+}
+
+func splitTail(t string) (announced, rest string) {
+	var keep []string
+	for _, l := range strings.Split(t, "\n") {
+		if strings.HasPrefix(l, announceMark) {
+			announced = strings.TrimPrefix(l, announceMark)
+			continue
+		}
+		keep = append(keep, l)
+	}
+	rest = strings.Join(keep, "\n")
+	if len(rest) > 6000 {
+		rest = rest[:1500] + "\n...\n" + rest[len(rest)-4500:]
+	}
+	return
+}
+
 // Map runs every request on some worker and returns the raw JSON responses in request order.
-// Requests not started before the deadline stay nil (zero deadline = none).
-func (p *Pool) Map(reqs []interface{}, deadline time.Time) ([][]byte, error) {
-	outs := make([][]byte, len(reqs))
+// Requests not started before the deadline stay nil (zero deadline = none). A worker that dies
+// (or does not answer within RequestTimeout) is replaced and its request is retried once on the
+// fresh worker; a request that kills the fresh worker too is reported in deaths (its response
+// stays nil) and the run goes on. err is set only if workers cannot be started any more.
+func (p *Pool) Map(reqs []interface{}, deadline time.Time) (outs [][]byte, deaths []Death, err error) {
+	outs = make([][]byte, len(reqs))
 	var mu sync.Mutex
 	next := 0
 	var firstErr error
 	var wg sync.WaitGroup
-	for _, w := range p.ws {
-		if w.dead {
-			continue
-		}
+	for slot := range p.ws {
 		wg.Add(1)
-		go func(w *poolWorker) {
+		go func(slot int) {
 			defer wg.Done()
 			for {
 				mu.Lock()
@@ -160,60 +319,80 @@ func (p *Pool) Map(reqs []interface{}, deadline time.Time) ([][]byte, error) {
 				i := next
 				next++
 				mu.Unlock()
-				b, err := json.Marshal(reqs[i])
-				if err == nil {
-					_, err = w.req.Write(append(b, '\n'))
-				}
-				var line []byte
-				if err == nil {
-					w.respF.SetReadDeadline(time.Now().Add(RequestTimeout))
-					line, err = w.resp.ReadBytes('\n')
-					if err != nil && w.cmd.Process != nil {
-						w.cmd.Process.Kill()
-					}
-				}
-				if err != nil {
-					w.dead = true
-					w.cmd.Wait()
-					s := w.stderr.String()
-					if len(s) > 4000 {
-						s = s[:2000] + "\n...\n" + s[len(s)-2000:]
-					}
+				b, merr := json.Marshal(reqs[i])
+				if merr != nil {
 					mu.Lock()
-					if firstErr == nil {
-						firstErr = fmt.Errorf("pool worker died while executing request %d (%s): %v\n%s", i, string(b), err, s)
-					}
+					firstErr = merr
 					mu.Unlock()
 					return
 				}
-				outs[i] = bytes.TrimSpace(line)
+				for attempt := 0; ; attempt++ {
+					w := p.ws[slot]
+					var line []byte
+					var xerr error
+					if w.dead {
+						xerr = fmt.Errorf("worker not running")
+					} else {
+						line, xerr = exchange(w, b)
+					}
+					if xerr == nil {
+						outs[i] = line
+						w.served++
+						if RecycleRSSMiB > 0 && w.cmd.Process != nil && rssMiB(w.cmd.Process.Pid) > RecycleRSSMiB {
+							retire(w, false)
+							nw, serr := p.spawn()
+							mu.Lock()
+							p.Restarts++
+							if serr != nil && firstErr == nil {
+								firstErr = serr
+							}
+							mu.Unlock()
+							if serr != nil {
+								return
+							}
+							p.ws[slot] = nw
+						}
+						break
+					}
+					exit := retire(w, true)
+					announced, tail := splitTail(w.stderr.String())
+					nw, serr := p.spawn()
+					mu.Lock()
+					p.Restarts++
+					if attempt >= 1 {
+						deaths = append(deaths, Death{Index: i, Request: string(b), Announced: announced, Tail: tail, ExitErr: xerr.Error() + " / " + exit})
+					}
+					if serr != nil && firstErr == nil {
+						firstErr = serr
+					}
+					mu.Unlock()
+					if serr != nil {
+						return
+					}
+					p.ws[slot] = nw
+					if attempt >= 1 {
+						break
+					}
+				}
 			}
-		}(w)
+		}(slot)
 	}
 	wg.Wait()
-	return outs, firstErr
+	sort.Slice(deaths, func(a, b int) bool { return deaths[a].Index < deaths[b].Index })
+	return outs, deaths, firstErr
 }
 
 // Close ends the workers (they remove their scratch on the way out).
 func (p *Pool) Close() {
 	for _, w := range p.ws {
-		if w.req != nil {
+		if w != nil && !w.dead && w.req != nil {
 			w.req.Close()
+			w.req = nil
 		}
 	}
 	for _, w := range p.ws {
-		if w.cmd != nil && !w.dead {
-			done := make(chan struct{})
-			go func() { w.cmd.Wait(); close(done) }()
-			select {
-			case <-done:
-			case <-time.After(10 * time.Second):
-				w.cmd.Process.Kill()
-				<-done
-			}
-		}
-		if w.respF != nil {
-			w.respF.Close()
+		if w != nil && !w.dead {
+			retire(w, false)
 		}
 	}
 	p.ws = nil
